@@ -5,7 +5,7 @@ Every run re-reads /repo/src, emits one Lean definition per function, generic in
 rewrites FFVerif/Gen/*.lean only when the text changed.  Anything outside the accepted subset raises
 Unsupported: a broken tie, reported by the check, never skipped silently.
 
-Accepted subset: straight-line assignments (SSA), `x = float( x )` (identity), `if c: x = e`, statically decided `if flag:` on a
+Accepted subset: straight-line assignments (SSA), `x = float( x )` (identity), `if c: x = e`, `if c: return e` (the rest is the other branch), statically decided `if flag:` on a
 parameter fixed by the caller (normalized=..., tcat=..., k=...), early return, nested defs whose body
 is assignments + return, dict-literal lookup by a fixed key, 2-vectors, np.power/exp/log/sqrt/pi,
 special.gamma, np.mean of a 2-vector, max.  `raise ValueError` guards become the `_ok` predicate;
@@ -194,6 +194,10 @@ class Fn:
                         rhs = self.e(b.value)
                         nm = self.fresh(t.id)
                         self.lines.append(f'let {nm} : α := bif {c} then {rhs} else {old}')
+                return
+            if not s.orelse and len(s.body) == 1 and isinstance(s.body[0], ast.Return):
+                # `if c: return e` - the rest of the function is the other branch
+                self.lines.append(f'bif {self.cond(s.test)} then {self.e(s.body[0].value)} else')
                 return
             raise Unsupported('if ' + ast.unparse(s.test))
         if isinstance(s, ast.Assign):
